@@ -71,6 +71,7 @@ type Attempt struct {
 	RData    []byte
 	Back     uint64 // gas handed back: gas(next step) - (gas(step) - cost(step))
 	HaveBack bool
+	OutSeq   int    // seq of the caller's next step (where the outcome was seen); 0 when none
 	Supplied uint64 // creates only
 	Node     int // expected call-tree index (-1 for kinds the call tree does not record)
 	InAspect bool
@@ -150,6 +151,7 @@ func BuildHistory(evs []Ev, ex int) *History {
 				a.RData = e.RData
 				a.Back = e.Gas - (a.StepGas - a.StepCost)
 				a.HaveBack = true
+				a.OutSeq = e.Seq
 				if a.Op == 0xf0 || a.Op == 0xf5 {
 					// a create's supplied gas is taken by the instruction itself, not through
 					// its listed cost: add what was supplied (seen at the frame's entry, or all
